@@ -74,7 +74,13 @@ impl PixelDataReader for JpegAdapter {
                 .with_whatever_context(|_| format!("JPEG decoding failure on frame {i}"))?;
 
             let decoded_len = decoded.len();
-            dst[dst_offset..(dst_offset + decoded_len)].copy_from_slice(&decoded);
+            // the image attributes may not agree with the JPEG stream
+            let Some(dst_frame) = dst.get_mut(dst_offset..(dst_offset + decoded_len)) else {
+                whatever!(
+                    "JPEG frame {i} decodes to more data than the image attributes account for"
+                );
+            };
+            dst_frame.copy_from_slice(&decoded);
             dst_offset += decoded_len;
 
             if next_even(cursor.position()) >= next_even(fragments_len) {
